@@ -241,7 +241,11 @@ def run_check(prop, spec, tier):
             if not done:
                 time.sleep(0.05)
                 if time.time() > hard_deadline:
-                    harness_errors.append({'error': 'hard deadline: workers stalled'})
+                    # the machine is too slow/loaded to finish the chunks in flight: abandon them.  Only an
+                    # error when too little was explored (min_fraction below), never a verdict by itself
+                    abandoned = len(pending)
+                    print(f'note: {abandoned} chunk(s) still running at the hard deadline were abandoned', flush=True)
+                    pending.clear()
                     break
                 continue
             for fu in done:
